@@ -293,6 +293,7 @@ pub fn run_exmodel(a: &Args) {
             out.finish(); return;
         }
         if parts[0].trim() == "psp" { let imp = crate::exm_psp::replay(&parts); out.case_tagged(r, &imp, "replay"); out.finish(); return; }
+        if parts[0].trim() == "mcp" { let imp = crate::exm_mcp::replay(&parts); out.case_tagged(r, &imp, "replay"); out.finish(); return; }
         if parts[0].trim() == "alp" { let imp = crate::exm_alp::replay(&parts); out.case_tagged(r, &imp, "replay"); out.finish(); return; }
         if parts[0].trim() == "misp" {
             let imp = replay_misp(&parts);
@@ -326,5 +327,6 @@ pub fn run_exmodel(a: &Args) {
     crate::exm_max2sat::generate(&mut out, &mut rng, if a.thorough { 6000 } else { 600 });
     crate::exm_alp::generate(&mut out, &mut rng, if a.thorough { 6000 } else { 600 });
     crate::exm_psp::generate(&mut out, &mut rng, if a.thorough { 6000 } else { 600 });
+    crate::exm_mcp::generate(&mut out, &mut rng, if a.thorough { 6000 } else { 600 });
     out.finish();
 }
